@@ -158,4 +158,9 @@ View == <<content, dirs, last, edits, builds>>
 \* edits after the last build, so all shorter histories that end in a build are covered too)
 Emit == Len(hist) < MaxHist
         \/ (PrintT(<<"B", ToJson([root |-> InOrder(Root), init |-> InitContent, steps |-> hist])>>) /\ FALSE)
+\* directed generation: with Variant = "found" every shortest history on which the fold of the code as
+\* found diverges is printed (and cut); the replay runs them on the real code (prediction: exp, as always)
+EmitDiverged == IF last.outcome = "diverged"
+                THEN PrintT(<<"B", ToJson([root |-> InOrder(Root), init |-> InitContent, steps |-> hist])>>) /\ FALSE
+                ELSE Len(hist) < MaxHist
 =============================================================================
